@@ -1142,6 +1142,7 @@ func runC16(c *Ctx, r *Rec) {
 	} else {
 		r.undecided("D3-extract", "collection.catalogClass.Extract", "", "not found")
 	}
+	checkParallelCursor(c, r, "D3-parallel-cursor", fileFuncs(c, "collection", ccls))
 	checkCellsNotShared(c, r, "D4-cells-not-shared")
 	r.floor("D4-pure", 3)
 	r.floor("D4-fresh", 3)
